@@ -504,6 +504,38 @@ fn i8(thorough: bool) -> Vec<Case> {
     out
 }
 
+/// I9: every kind of value is an element like any other.  A sequence whose middle element is nil, a number,
+/// a string, a container, a function, a built-in function, a bound method, an instance, or a *class object*
+/// (built-in classes, the class StopIter itself, error classes, a class of the program, a class of the program
+/// derived from StopIter or from Iter) goes through map, filter, collect, reduce and `for`, from a vec and from
+/// a tuple: the adapters transform, keep, drop and count that element as they do its neighbours.  (Only an
+/// *instance* of StopIter or of a class derived from it ends a sequence; those are not in the pool.)
+fn i9() -> Vec<crate::expect::Expect> {
+    use crate::expect::Expect;
+    let decls = "#[constructor(new)]\nclass Plain { fn m(self) { return 1; } }\n#[derive(StopIter)]\nclass Done {}\n#[derive(Iter)]\nclass MyIter {}\n#[derive(Error)]\nclass MyErr {}\nvar inst = Plain.new();\n";
+    let elements = ["nil", "0", "\"s\"", "[1]", "(1,)", "{1: 2}", "(0..2)", "(|a| a)", "type", "inst.m", "[1].len", "inst", "Error.new(\"e\")", "Num", "String", "Vec", "Fiber", "Type", "Object", "StopIter", "Error", "TypeError", "Iter", "Plain", "Done", "MyIter", "MyErr"];
+    let mut out = Vec::new();
+    for e in elements {
+        for (open, close) in [("[", "]"), ("(", ")")] {
+            let seq = format!("{}1, {}, 3{}", open, e, close);
+            let src = format!(
+                "{decls}var seq = {seq};\nprint(seq.iter().map(|x| 0).collect());\nprint(seq.iter().filter(|x| false).collect());\nprint(seq.iter().filter(|x| true).collect().len());\nprint(seq.iter().map(|x| x).collect()[1] == seq[1]);\nprint(seq.iter().map(|x| x).filter(|x| true).map(|x| 7).collect());\nprint(seq.iter().collect().len());\nprint(seq.iter().reduce(|a, x| a + 1, 0));\nvar n = 0;\nfor x in seq {{ n += 1; }}\nprint(n);\nvar k = 0;\nfor x in seq.iter().map(|x| x) {{ k += 1; }}\nprint(k);\n",
+                decls = decls,
+                seq = seq
+            );
+            out.push(Expect {
+                family: "I9_every_kind_of_value_is_an_element_like_any_other",
+                request: proto::Request { op: "run".into(), snippets: vec![src], fuel: Some(1_000_000), ..Default::default() },
+                out: vec![vec!["[0, 0, 0]".into(), "[]".into(), "3".into(), "true".into(), "[7, 7, 7]".into(), "3".into(), "3".into(), "3".into(), "3".into()]],
+                end: vec!["ok".into()],
+                describe: json!({"element": e, "sequence": if open == "[" { "vec" } else { "tuple" }}),
+                nontrivial: true,
+            });
+        }
+    }
+    out
+}
+
 fn i7() -> Vec<Case> {
     let mut out = Vec::new();
     let its: Vec<(Vec<Stmt>, Expr)> = iterables(false)
@@ -577,5 +609,12 @@ pub fn run(ctx: &Ctx) -> Report {
     );
     report.assumptions = vec!["vec iteration is by cursor index into the live vec; `for` stops at an instance whose class is exactly StopIter (Appendix A)".into()];
     report.violations = stats.violations;
+    {
+        let cases = i9();
+        let n = cases.len();
+        let st = crate::expect::run_expect(ctx, &ctx.runner_checked, cases.into_iter(), &|_e, _r| None, &|_e, _p| None);
+        report.cov("I9_programs", json!(n));
+        report.violations.extend(st.violations);
+    }
     report
 }
